@@ -281,6 +281,18 @@ Section OPES.
     fold_left (fun ws c => opes_round c ws) rounds (repeat [] n).
 End OPES.
 
+(* the sums of weights that normalise the OPES bias: at a deposition step every walker contributes the weight of
+   its new kernel; replica 0 adds the contributions of replicas 1, 2, .. to its own in this order and sends the
+   total to everybody; every walker adds the total to its running sum (the same code runs for the sum of the
+   squared weights) *)
+Definition opes_sum_round {A : Type} (G : GrpOps A) (s : A) (hs : list A) : A :=
+  match hs with
+  | [] => s
+  | h0 :: others => gadd G s (fold_left (gadd G) others h0)
+  end.
+Definition opes_sums {A : Type} (G : GrpOps A) (s : A) (rounds : list (list A)) : A :=
+  fold_left (opes_sum_round G) rounds s.
+
 (* ------------------------------------------------------------------------------------------- *)
 (* (b) file-based multiple-walker metadynamics: one writer, one reader                          *)
 (* ------------------------------------------------------------------------------------------- *)
